@@ -8,11 +8,13 @@ use dnssec::denial;
 use domain::base::iana::{DigestAlgorithm, SecurityAlgorithm};
 use domain::base::name::ToName;
 use domain::base::Record;
-use domain::crypto::sign::{generate, GenerateParams, KeyPair, SecretKeyBytes, SignRaw};
+use domain::crypto::common::{rsa_encode, rsa_exponent_modulus, PublicKey};
+use domain::crypto::sign::{generate, GenerateParams, KeyPair, SignRaw};
+use dnssec::realkeys::{self, RealKey};
 use domain::dnssec::sign::keys::signingkey::SigningKey;
 use domain::dnssec::sign::records::{Rrset, SortedRecords};
 use domain::dnssec::sign::signatures::rrsigs::{sign_rrset, sign_sorted_rrset_in};
-use domain::dnssec::validator::base::{DnskeyExt, RrsigExt};
+use domain::dnssec::validator::base::{supported_algorithm, DnskeyExt, RrsigExt};
 use domain::rdata::dnssec::Timestamp;
 use domain::rdata::{Dnskey, Rrsig};
 use serde_json::{json, Value};
@@ -59,19 +61,18 @@ fn sign_both<K: SignRaw + std::fmt::Debug>(
     Ok((a, b))
 }
 
-struct RealKey {
-    secret: SecretKeyBytes,
-    public: Dnskey<Vec<u8>>,
-}
-
-fn real_keys() -> Vec<RealKey> {
-    let mut out = vec![];
-    for p in [GenerateParams::Ed25519, GenerateParams::EcdsaP256Sha256] {
-        if let Ok((secret, public)) = generate(&p, 256) {
-            out.push(RealKey { secret, public });
-        }
-    }
-    out
+/// A third way to the same RRset: the collection built with collect()
+/// (FromIterator) from the records in reverse order.
+fn sign_collected<K: SignRaw + std::fmt::Debug>(
+    key: &SigningKey<Bytes, K>,
+    recs: &[SRecord],
+    inc: Timestamp,
+    exp: Timestamp,
+) -> Result<Record<SName, SRrsig>, String> {
+    let sorted: SortedRecords<SName, SData> = recs.iter().rev().cloned().collect();
+    let rrset = sorted.rrsets().next().ok_or("no rrset")?;
+    let mut scratch = vec![0xEE; 7];
+    sign_sorted_rrset_in(key, &rrset, inc, exp, &mut scratch).map_err(|e| format!("{e}"))
 }
 
 fn altered_rrsig(base: &SRrsig, input: &Value, tag_changed: bool, flip: bool) -> SRrsig {
@@ -83,7 +84,7 @@ fn altered_rrsig(base: &SRrsig, input: &Value, tag_changed: bool, flip: bool) ->
     }
     Rrsig::new(
         rtype(s["tc"].as_u64().unwrap() as u16),
-        base.algorithm(),
+        SecurityAlgorithm::from_int(s["alg"].as_u64().unwrap() as u8),
         s["labels"].as_u64().unwrap() as u8,
         ttl(s["ottl"].as_u64().unwrap() as u32),
         ts(&s["exp"]),
@@ -94,6 +95,10 @@ fn altered_rrsig(base: &SRrsig, input: &Value, tag_changed: bool, flip: bool) ->
     )
     .expect("rrsig")
 }
+
+type KeyCache = std::collections::HashMap<(u8, bool, u16, Vec<u8>), SigningKey<Bytes, KeyPair>>;
+static KEYS: std::sync::LazyLock<std::sync::Mutex<KeyCache>> =
+    std::sync::LazyLock::new(|| std::sync::Mutex::new(KeyCache::new()));
 
 fn rrsig_case(input: &Value, reals: &[RealKey]) -> Value {
     let orig = match records_of(&input["orig"]) {
@@ -120,83 +125,133 @@ fn rrsig_case(input: &Value, reals: &[RealKey]) -> Value {
         Ok(x) => x,
         Err(e) => return json!({"sign_error": e}),
     };
-    let bufs = rk.raw_secret_key().take();
+    let mut bufs = rk.raw_secret_key().take();
     if bufs.len() != 2 || bufs[0] != bufs[1] || ra.data() != rb.data() {
         return json!({"entry_points_disagree": bufs.iter().map(|b| jbytes(b)).collect::<Vec<_>>()});
     }
+    match sign_collected(&rk, &orig, inc, exp) {
+        Ok(rc) => {
+            let b3 = rk.raw_secret_key().take();
+            if b3.len() != 1 || b3[0] != bufs[0] || rc.data() != ra.data() {
+                return json!({"entry_points_disagree": b3.iter().map(|b| jbytes(b)).collect::<Vec<_>>()});
+            }
+        }
+        Err(e) => return json!({"sign_error": e}),
+    }
+    bufs.truncate(1);
     // RFC 4035 2.2: owner, class and TTL of the RRSIG RR are the RRset's
     if ra.owner() != orig[0].owner() || ra.class() != orig[0].class() || ra.ttl() != orig[0].ttl() {
         return json!({"rrsig_rr_header_wrong": true});
     }
+    if rk.flags() != flags || rk.algorithm() != rk.raw_secret_key().dnskey.algorithm() {
+        return json!({"signing_key_accessors_wrong": true});
+    }
     let tag_changed = input["sig"]["tag"] != input["sig0"]["tag"];
     let conv = input["conv"].as_str().unwrap_or("none");
     let rsig = altered_rrsig(ra.data(), input, tag_changed, false);
-    let (cur, rsig) = match convert(conv, &cur, &rsig) {
+    let converted = match conv {
+        "typed" => convert_typed(&cur, &rsig),
+        _ => convert(conv, &cur, &rsig),
+    };
+    let (cur, rsig) = match converted {
         Ok(x) => x,
         Err(e) => return json!({"conversion_changed_value": e}),
     };
-    let mut vbuf: Vec<u8> = vec![];
-    if rsig.signed_data(&mut vbuf, &mut cur.clone()[..]).is_err() {
-        return json!({"signed_data_error": true});
-    }
-
-    // (ii) real keys: the verdict
-    let mut verdicts = vec![];
-    for rk in reals {
-        let dnskey = Dnskey::new(flags, 3, rk.public.algorithm(), rk.public.public_key().clone())
-            .expect("dnskey");
-        let pair = match KeyPair::from_bytes(&rk.secret, &dnskey) {
-            Ok(p) => p,
-            Err(e) => return json!({"key_error": format!("{e}")}),
-        };
-        let sk = SigningKey::new(key_owner.clone(), flags, pair);
-        let (sa, sb) = match sign_both(&sk, &orig, inc, exp) {
-            Ok(x) => x,
-            Err(e) => return json!({"sign_error": e}),
-        };
-        // both entry points produce signatures over the same data: each
-        // verifies against the validator's reconstruction of the original
-        for s in [&sa, &sb] {
-            let mut b: Vec<u8> = vec![];
-            let _ = s.data().signed_data(&mut b, &mut orig.clone()[..]);
-            if s.data().verify_signed_data(&dnskey, &b).is_err() {
-                return json!({"fresh_signature_does_not_verify": rk.public.algorithm().to_int()});
-            }
+    let rebuild = |sig: &SRrsig, recs: &[SRecord]| -> Result<Vec<u8>, Value> {
+        if conv == "chain" {
+            return signed_data_chained(sig, recs).map_err(|e| json!({"conversion_changed_value": e}));
         }
-        let asig = altered_rrsig(sa.data(), input, tag_changed, input["sigflip"] == true);
-        let asig = match convert(conv, &cur, &asig) {
-            Ok(x) => x.1,
-            Err(e) => return json!({"conversion_changed_value": e}),
-        };
-        let dnskey = match convert_dnskey(conv, &dnskey) {
-            Ok(k) => k,
-            Err(e) => return json!({"conversion_changed_value": e}),
-        };
         let mut b: Vec<u8> = vec![];
-        if asig.signed_data(&mut b, &mut cur.clone()[..]).is_err() {
-            return json!({"signed_data_error": true});
+        if sig.signed_data(&mut b, &mut recs.to_vec()[..]).is_err() {
+            return Err(json!({"signed_data_error": true}));
         }
-        let vkey = if input["keyflip"] == true {
-            let mut p = dnskey.public_key().clone();
-            let n = p.len();
-            p[n / 3] ^= 0x04;
-            Dnskey::new(flags, 3, dnskey.algorithm(), p).expect("dnskey")
-        } else {
-            dnskey.clone()
-        };
-        verdicts.push(asig.verify_signed_data(&vkey, &b).is_ok());
-    }
-    let verify = if verdicts.is_empty() {
-        json!("no_real_keys")
-    } else if verdicts.iter().all(|v| *v == verdicts[0]) {
-        json!(verdicts[0])
-    } else {
-        json!({"algorithms_disagree": verdicts})
+        Ok(b)
     };
+    let vbuf = match rebuild(&rsig, &cur) {
+        Ok(b) => b,
+        Err(v) => return v,
+    };
+    let prefix = match proto_prefix(conv, &rsig) {
+        Ok(b) => b,
+        Err(e) => return json!({"conversion_changed_value": e}),
+    };
+
+    // (ii) a real key of the model's algorithm, obtained the model's way: the verdict
+    let alg = input["key"]["alg"].as_u64().unwrap_or(0) as u8;
+    let route = input["kroute"].as_str().unwrap_or("direct");
+    let Some(real) = reals.iter().find(|k| k.alg == alg) else {
+        return json!({"no_real_key_of_algorithm": alg});
+    };
+    let dnskey = real.dnskey(flags);
+    // (the imported key pair of a case is kept for the later cases with the same key)
+    let ck = (alg, route == "bind", flags, key_owner.as_slice().to_vec());
+    let mut cache = KEYS.lock().unwrap_or_else(|e| e.into_inner());
+    if !cache.contains_key(&ck) {
+        let pair = match real.pair(route, flags) {
+            Ok(p) => p,
+            Err(e) => return json!({"key_error": e}),
+        };
+        cache.insert(ck.clone(), SigningKey::new(key_owner.clone(), flags, pair));
+    }
+    let sk = &cache[&ck];
+    // what the key pair says about itself is the key it was made from
+    if sk.raw_secret_key().algorithm() != dnskey.algorithm() || sk.raw_secret_key().dnskey() != dnskey
+        || sk.algorithm() != dnskey.algorithm() || sk.dnskey() != dnskey {
+        return json!({"key_pair_is_not_its_public_key": alg});
+    }
+    let (sa, sb) = match sign_both(sk, &orig, inc, exp) {
+        Ok(x) => x,
+        Err(e) => return json!({"sign_error": e}),
+    };
+    // both entry points produce signatures over the same data: each
+    // verifies against the validator's reconstruction of the original
+    for s in [&sa, &sb] {
+        let mut b: Vec<u8> = vec![];
+        let _ = s.data().signed_data(&mut b, &mut orig.clone()[..]);
+        if s.data().algorithm() != dnskey.algorithm() || s.data().key_tag() != dnskey.key_tag() {
+            return json!({"rrsig_names_another_key": alg});
+        }
+        if s.data().verify_signed_data(&dnskey, &b).is_err() {
+            return json!({"fresh_signature_does_not_verify": alg});
+        }
+    }
+    let siglen = sa.data().signature().len();
+    let asig = altered_rrsig(sa.data(), input, tag_changed, input["sigflip"] == true);
+    let converted = match conv {
+        "typed" => convert_typed(&cur, &asig),
+        _ => convert(conv, &cur, &asig),
+    };
+    let asig = match converted {
+        Ok(x) => x.1,
+        Err(e) => return json!({"conversion_changed_value": e}),
+    };
+    let dnskey = match conv {
+        "typed" => convert_dnskey_typed(&key_owner, &dnskey),
+        _ => convert_dnskey(conv, &dnskey),
+    };
+    let dnskey = match dnskey {
+        Ok(k) => k,
+        Err(e) => return json!({"conversion_changed_value": e}),
+    };
+    let b = match rebuild(&asig, &cur) {
+        Ok(b) => b,
+        Err(v) => return v,
+    };
+    // the DNSKEY the validator holds: the Algorithm field and the key octets of the case
+    let vkalg = SecurityAlgorithm::from_int(input["vkalg"].as_u64().unwrap_or(alg as u64) as u8);
+    let mut p = dnskey.public_key().clone();
+    if input["keyflip"] == true {
+        let n = p.len();
+        p[n / 3] ^= 0x04;
+    }
+    let vkey = Dnskey::new(flags, 3, vkalg, p).expect("dnskey");
+    let verify = asig.verify_signed_data(&vkey, &b).is_ok();
     json!({
         "sig0": sig_fields(ra.data()),
         "signer": jbytes(&bufs[0]),
         "validator": jbytes(&vbuf),
+        "prefix": jbytes(&prefix),
+        "siglen": siglen,
         "verify": verify,
     })
 }
@@ -210,9 +265,10 @@ fn signer_case(input: &Value, reals: &[RealKey]) -> Value {
     let flags = input["key"]["flags"].as_u64().unwrap_or(0) as u16;
     let (inc, exp) = (ts(&input["inc"]), ts(&input["exp"]));
     let rk = SigningKey::new(key_owner.clone(), flags, RecKey::of_json(&input["key"]));
-    let real = reals.first().and_then(|r| {
-        let dnskey = Dnskey::new(flags, 3, r.public.algorithm(), r.public.public_key().clone()).ok()?;
-        let pair = KeyPair::from_bytes(&r.secret, &dnskey).ok()?;
+    let want = input["key"]["alg"].as_u64().unwrap_or(15) as u8;
+    let real = reals.iter().find(|r| r.alg == want).and_then(|r| {
+        let dnskey = r.dnskey(flags);
+        let pair = r.pair("direct", flags).ok()?;
         Some((SigningKey::new(key_owner.clone(), flags,
                               FlakyKey { inner: pair, fail_next: std::sync::Mutex::new(false) }), dnskey))
     });
@@ -286,7 +342,87 @@ fn vector_case(input: &Value) -> Value {
 
 fn keytag_case(input: &Value) -> Value {
     let k = RecKey::of_json(&input["key"]);
-    json!({"tag": k.dnskey.key_tag()})
+    let flags = k.dnskey.flags();
+    let tag = k.dnskey.key_tag();
+    let d = k.dnskey.clone();
+    // the flag bits as the signing key and as the DNSKEY record data report them
+    let sk = SigningKey::new(name_of(&json!([[101, 120]])), flags, k);
+    if sk.is_zone_signing_key() != d.is_zone_key() || sk.is_revoked() != d.is_revoked()
+        || sk.is_secure_entry_point() != d.is_secure_entry_point() || sk.dnskey().key_tag() != tag {
+        return json!({"signing_key_and_dnskey_disagree": flags});
+    }
+    json!({"tag": tag, "flags": sk.flags(), "zone": sk.is_zone_signing_key(),
+           "revoked": sk.is_revoked(), "sep": sk.is_secure_entry_point()})
+}
+
+/// DnskeyExt::key_size: Ok(bits), or -1 for any error.
+fn keysize_case(input: &Value) -> Value {
+    let k = RecKey::of_json(&input["key"]);
+    match k.dnskey.key_size() {
+        Ok(n) => json!({"size": n}),
+        Err(_) => json!({"size": -1}),
+    }
+}
+
+/// RFC 3110 layout: rsa_encode builds the public key field from exponent and
+/// modulus, rsa_exponent_modulus splits it again (refusing moduli shorter
+/// than the caller's minimum); the verifier takes the same key apart.
+fn rsa_case(input: &Value) -> Value {
+    let (e, n) = (bytes_of(&input["e"]), bytes_of(&input["n"]));
+    let min = input["min"].as_u64().unwrap_or(0) as usize;
+    let public = rsa_encode(&e, &n);
+    let key = Dnskey::new(256, 3, SecurityAlgorithm::RSASHA256, public.clone()).expect("dnskey");
+    match rsa_exponent_modulus(&key, min) {
+        Ok((e2, n2)) => json!({"pub": jbytes(&public), "e": jbytes(&e2), "n": jbytes(&n2), "ok": true}),
+        Err(_) => {
+            // too short for this caller: the parts as a caller without a minimum sees them
+            match rsa_exponent_modulus(&key, 0) {
+                Ok((e2, n2)) => json!({"pub": jbytes(&public), "e": jbytes(&e2), "n": jbytes(&n2), "ok": false}),
+                Err(_) => json!({"pub": jbytes(&public), "malformed": true}),
+            }
+        }
+    }
+}
+
+/// Which algorithm numbers the backend verifies / signs with, and that the
+/// validator only claims support for algorithms it can verify.
+fn alg_case(input: &Value, reals: &[RealKey]) -> Value {
+    let x = input["alg"].as_u64().unwrap_or(0) as u8;
+    let alg = SecurityAlgorithm::from_int(x);
+    let key = Dnskey::new(256, 3, alg, bytes_of(&input["pub"])).expect("dnskey");
+    let verifiable = !matches!(PublicKey::from_dnskey(&key),
+                               Err(domain::crypto::common::AlgorithmError::Unsupported));
+    // signable: there is a way to obtain a key pair of this algorithm that signs
+    let mut signable = false;
+    for r in reals.iter().filter(|r| r.alg == x) {
+        for route in ["direct", "bind"] {
+            match r.pair(route, 256) {
+                Ok(p) => {
+                    let sig = p.sign_raw(b"probe");
+                    match sig {
+                        Ok(s) if s.algorithm() == alg && p.algorithm() == alg && r.direct.algorithm() == alg
+                            && r.bind.algorithm() == alg => signable = true,
+                        _ => return json!({"key_pair_of_algorithm_does_not_sign": x}),
+                    }
+                }
+                Err(_) => {}
+            }
+        }
+    }
+    for p in [GenerateParams::RsaSha256 { bits: 2048 }, GenerateParams::RsaSha512 { bits: 2048 },
+              GenerateParams::EcdsaP256Sha256, GenerateParams::EcdsaP384Sha384, GenerateParams::Ed25519,
+              GenerateParams::Ed448] {
+        if p.algorithm() == alg {
+            if let Ok((s, d)) = generate(&p, 257) {
+                if s.algorithm() != alg || d.algorithm() != alg || KeyPair::from_bytes(&s, &d).is_err() {
+                    return json!({"generated_key_unusable": x});
+                }
+                signable = true;
+            }
+        }
+    }
+    json!({"verifiable": verifiable, "signable": signable,
+           "claim_sound": !supported_algorithm(&alg) || verifiable})
 }
 
 fn ds_case(input: &Value) -> Value {
@@ -308,12 +444,23 @@ fn ds_case(input: &Value) -> Value {
 
 fn main() {
     let _ = SecurityAlgorithm::ED25519;
-    let reals = real_keys();
+    let cell: std::cell::OnceCell<Vec<RealKey>> = std::cell::OnceCell::new();
+    let reals = || -> &[RealKey] {
+        cell.get_or_init(|| {
+            realkeys::all().unwrap_or_else(|e| {
+                eprintln!("replay_dnssec: no real keys: {e}");
+                std::process::exit(2)
+            })
+        })
+    };
     run_cases(|input| match input["kind"].as_str() {
-        Some("rrsig") => rrsig_case(input, &reals),
-        Some("signer") => signer_case(input, &reals),
+        Some("rrsig") => rrsig_case(input, reals()),
+        Some("signer") => signer_case(input, reals()),
         Some("vector") => vector_case(input),
         Some("keytag") => keytag_case(input),
+        Some("keysize") => keysize_case(input),
+        Some("rsa") => rsa_case(input),
+        Some("alg") => alg_case(input, reals()),
         Some("ds") => ds_case(input),
         Some("nsec") => denial::nsec_case(input),
         Some("nsec3") => denial::nsec3_case(input),
